@@ -396,6 +396,14 @@ def run_lock(rep, scens, family, probe_pct=25, max_steps=600, salt=0, judge=None
                      " (the model produces the same history)" if bad_m and m == h else ""),
                     "family: %s\nmode: lock\nclauses: %s\n--- scenario\n%s\nschedule %s\n--- model\n%s\n--- impl\n%s\n" %
                     (family, bad_h[:5], sc, sched_txt, "\n".join(m_all), "\n".join(h_all))))
+            elif m != h and rep.prop == "C13" and any(" STUCK" in ln for ln in h):
+                mism += 1
+                stuck_ln = next(ln for ln in h if " STUCK" in ln)
+                rejected.append((
+                    "family %s: deadlock: thread %s never reaches its next park point although the model "
+                    "says it can run (`%s`)" % (family, stuck_ln.split()[1], stuck_ln),
+                    "family: %s\nmode: lock\nclauses: [('deadlock', %r)]\n--- scenario\n%s\nschedule %s\n--- model\n%s\n--- impl\n%s\n" %
+                    (family, stuck_ln, sc, sched_txt, "\n".join(m_all), "\n".join(h_all))))
             elif m != h:
                 if slow:
                     rep.coverage["inconclusive"] = rep.coverage.get("inconclusive", 0) + 1
@@ -614,6 +622,8 @@ FAMILIES = {
                           mws=(0, 2), directs=(0, 1), verdict=0.2), 20),
     "iterators": (dict(policies=["block"], ops={"d": 10, "it": 3, "gs": 1}, max_ops=4, directs=(0, 1),
                        keep=0.2), 25),
+    "shutdown_unsub": (dict(policies=["block"], directs=(2, 3), chans=(0, 1), chan_pols=["block"], reducers=(1, 1),
+                            keep=0.0, ops={"d": 3, "un": 8}, max_ops=3, mws=(0, 0), max_threads=3, stop=1.0), 60),
     "subs_order": (dict(policies=["block"], directs=(3, 4), reducers=(1, 1), keep=0.0,
                         ops={"d": 10, "un": 6, "as": 2}, max_ops=6, mws=(0, 0), max_threads=3), 10),
     "selector_unsub": (dict(policies=["block"], directs=(0, 1), selectors=(1, 2), keep=0.1, sel_values=1,
@@ -639,7 +649,7 @@ PROPERTY_FAMILIES = {
     "C06": [("drop_burst", 200, 3000), ("mp_policies", 80, 1000)],
     "C07": [("registration", 120, 2400), ("subs_order", 120, 1600), ("mp_dispatch", 40, 800)],
     "C08": [("readers", 200, 3000)],
-    "C09": [("subs_lifecycle", 220, 3000)],
+    "C09": [("subs_lifecycle", 160, 3000), ("shutdown_unsub", 160, 2000)],
     "C10": [("channeled", 220, 3000)],
     "C11": [("effects", 220, 3000)],
     "C13": [("api_mix", 220, 3000), ("iterators", 40, 600)],
